@@ -3,8 +3,8 @@
 import glob, json, os, re
 ROOT = os.path.dirname(os.path.dirname(os.path.abspath(__file__)))
 rows = []
-for f in sorted(glob.glob("/tmp/seedrun_*.out")):
-    m = re.match(r"/tmp/seedrun_(C\d+)_(.*)\.out", f)
+for f in sorted(glob.glob("/tmp/seedrun_*.out")) + sorted(glob.glob("/tmp/regrun_*.out")):
+    m = re.match(r"/tmp/(?:seed|reg)run_(C\d+)_(.*)\.out", f)
     prop, seed = m.group(1), m.group(2)
     txt = open(f, errors="replace").read()
     viol = re.findall(r"^VIOLATION property=\S+ replay=replays/\S+/(\S+?)_\d+$", txt, re.M)
